@@ -294,7 +294,9 @@ PROPS = {
                    f"{BMGR}._distribute_power", f"{PVM}._set_api_power", f"{PVM}._set_api_power#for_caller",
                    f"{PVM}.distribute_power", f"{PVM}.distribute_power#no_inverters"],
         lemmas=[],
-        bounded=[],
+        bounded=[dict(kind="native_script", name="calls that really take time: the real set-power routines of both managers against a "
+                                                 "scripted API with reply latencies below / above the timeout",
+                      module="native.explore_setpower_timeouts")],
         level="proof",
         explanation="For every assignment of an outcome (success, out-of-range rejection, client error, unexpected exception, no "
                     "reply before the timeout) to each set_power call: _parse_result's failed power is the sum of the failed "
